@@ -461,6 +461,8 @@ class CaseCitation(ResourceCitation):
                             if k in self.groups
                         },
                         **{
+                            # "51192[U]" and "51192(U)" are the same page
+                            "page": self.corrected_page(),
                             "reporter": self.corrected_reporter(),
                             "class": type(self).__name__,
                         },
